@@ -202,7 +202,8 @@ class Native:
 # proof parts
 
 class ProofPart:
-    def __init__(self, unit, label=None, build_kwargs=None, native=None):
+    def __init__(self, unit, label=None, build_kwargs=None, native=None, own_only=False):
+        self.own_only = own_only      # report only failures inside the functions this part lists (the others belong to the part that owns them)
         self.unit = unit
         self.label = label or unit.NAME
         self.kw = build_kwargs or {}
@@ -312,6 +313,19 @@ class ProofPart:
             r.reason = 'obligation failed'
             if lost:
                 r.reason = 'obligation failed after lost hint anchor'
+            if self.own_only:
+                want = self._want()
+                mine = [f for f in r.failures if f.get('function') in want]
+                for f in r.failures:
+                    if f not in mine:
+                        r.notes.append('failed obligation in a function owned by another part (not reported here): %s: %s' % (f.get('function'), f.get('obligation', '')[:160]))
+                r.failures = mine
+                if not mine:
+                    missing = [w for w in want if not (fn_by_name.get(w) and fn_by_name[w]['success'] and fn_by_name[w]['mode'] == 'exec')]
+                    if want and not missing:
+                        r.status, r.reason = 'ok', 'own obligations discharged (a callee owned by another part failed its contract)'
+                    else:
+                        r.status, r.reason = 'undecided', 'own functions not reported verified: %s' % missing
         elif status in ('rlimit', 'timeout'):
             r.status = 'undecided'
             r.reason = 'resource-limit'
